@@ -36,12 +36,15 @@ type FuncContract struct {
 	Requires  []Clause
 	Ensures   []Clause
 	Assumes   []Clause
+	EnsuresGhost []Clause
 	Modifies  []*SX
 	ModAll    bool
 	LoopInv   map[int][]Clause
 	LoopDec   map[int]*Clause
 	LoopMod   map[int][]*SX // extra havoc targets inside loop K
 	AtCall    map[string][]Clause // callee short name -> assertions checked at every call to it
+	Protocols []ProtoUse
+	AtAtomic  map[int][]GhostUpd // ordinal of the atomic operation on a protected field -> ghost updates
 	File      string
 	Line      int
 	Used      bool
@@ -81,6 +84,32 @@ type Lemma struct {
 	IntMode bool
 }
 
+// Protocol: rely/guarantee description of one shared word (see DESIGN.md 2.9).
+type Protocol struct {
+	Name    string
+	Struct  string   // struct type name (package-local)
+	Field   string   // protected field
+	Ghosts  []string // ghost heaps keyed by the instance pointer
+	Inv     string   // spec func (s, ghosts...) bool
+	Rely    string   // spec func (me, s, ghosts..., s2, ghosts2...) bool
+	Guar    string   // spec func (me, s, ghosts..., s2, ghosts2...) bool
+	Exempt  []string // writers not under the protocol (listed as assumptions)
+	PkgPath string
+	File    string
+	Line    int
+}
+
+type ProtoUse struct {
+	Name string
+	Inst *SX
+}
+
+type GhostUpd struct {
+	Ghost string
+	Expr  *SX
+	Src   string
+}
+
 type Sweep struct {
 	PkgPath string
 	Glob    string
@@ -94,6 +123,7 @@ type Sweep struct {
 
 type Contracts struct {
 	Sweeps    []*Sweep
+	Protocols map[string]*Protocol
 	Funcs     map[string]*FuncContract // key: pkgpath + "::" + name, or "::" + fullname
 	SpecFuncs map[string]*SpecFunc
 	Ghosts    map[string]*GhostHeap
@@ -103,12 +133,12 @@ type Contracts struct {
 }
 
 func newContracts() *Contracts {
-	return &Contracts{Funcs: map[string]*FuncContract{}, SpecFuncs: map[string]*SpecFunc{}, Ghosts: map[string]*GhostHeap{}, Scan: map[string]int{}}
+	return &Contracts{Protocols: map[string]*Protocol{}, Funcs: map[string]*FuncContract{}, SpecFuncs: map[string]*SpecFunc{}, Ghosts: map[string]*GhostHeap{}, Scan: map[string]int{}}
 }
 
 var clauseKW = map[string]bool{"func": true, "spec": true, "lemma": true, "ghostheap": true, "props": true, "trusted": true, "inline": true,
-	"pure": true, "may_panic": true, "requires": true, "ensures": true, "assume": true, "modifies": true, "loop": true, "functype": true,
-	"iface": true, "input_path": true, "no_safety": true, "package": true, "mode": true, "sweep": true, "at": true}
+	"pure": true, "may_panic": true, "requires": true, "ensures": true, "ensures_ghost": true, "assume": true, "modifies": true, "loop": true, "functype": true,
+	"iface": true, "input_path": true, "no_safety": true, "package": true, "mode": true, "sweep": true, "at": true, "protocol": true}
 
 var labelRe = regexp.MustCompile(`^\[([A-Za-z0-9_.$#-]+)\]\s*`)
 
@@ -188,6 +218,52 @@ func (cs *Contracts) loadContractFile(path string, pkgPath string) error {
 				return fail("duplicate contract for %s", name)
 			}
 			cs.Funcs[key] = cur
+		case "protocol":
+			fs := strings.Fields(rest)
+			if cur == nil || (len(fs) > 1 && fs[1] == "field") {
+				// protocol NAME field S.f ghosts g1 g2 inv I rely R guar G
+				if len(fs) < 4 || fs[1] != "field" {
+					return fail("protocol NAME field S.f ghosts g.. inv I rely R guar G")
+				}
+				pr := &Protocol{Name: fs[0], PkgPath: pkgPath, File: path, Line: rc.line}
+				sf := strings.SplitN(fs[2], ".", 2)
+				if len(sf) != 2 {
+					return fail("protocol field must be Struct.field")
+				}
+				pr.Struct, pr.Field = sf[0], sf[1]
+				state := ""
+				for _, f := range fs[3:] {
+					switch f {
+					case "ghosts", "inv", "rely", "guar", "exempt":
+						state = f
+						continue
+					}
+					switch state {
+					case "ghosts":
+						pr.Ghosts = append(pr.Ghosts, f)
+					case "inv":
+						pr.Inv = f
+					case "rely":
+						pr.Rely = f
+					case "guar":
+						pr.Guar = f
+					case "exempt":
+						pr.Exempt = append(pr.Exempt, f)
+					}
+				}
+				cs.Protocols[pr.Name] = pr
+				cur = nil
+				break
+			}
+			// inside a func block: protocol NAME at <expr>
+			if len(fs) < 3 || fs[1] != "at" {
+				return fail("protocol NAME at <instance expression>")
+			}
+			e, err := parseSpec(strings.TrimSpace(strings.SplitN(rest, " at ", 2)[1]))
+			if err != nil {
+				return fail("%v", err)
+			}
+			cur.Protocols = append(cur.Protocols, ProtoUse{Name: fs[0], Inst: e})
 		case "sweep":
 			// sweep <glob> props A B [mode int] [except f g]: safety-only contracts for every matching function
 			fs := strings.Fields(rest)
@@ -297,6 +373,15 @@ func (cs *Contracts) loadContractFile(path string, pkgPath string) error {
 				default:
 					return fail("mode int|bv")
 				}
+			case "ensures_ghost":
+				// assumed at call sites, not checked against the body: statements about ghost counters the
+				// code cannot update itself (listed as assumptions)
+				c, err := mkClause("ensures_ghost", rest, 0)
+				if err != nil {
+					return err
+				}
+				cur.EnsuresGhost = append(cur.EnsuresGhost, c)
+				cs.Scan["ensures_ghost"]++
 			case "requires", "ensures", "assume":
 				c, err := mkClause(kw, rest, 0)
 				if err != nil {
@@ -327,6 +412,44 @@ func (cs *Contracts) loadContractFile(path string, pkgPath string) error {
 			case "at":
 				// at call <callee> assert [label] expr
 				fs := strings.Fields(rest)
+				if len(fs) >= 4 && fs[0] == "go" && fs[1] == "ghost" {
+					// at go ghost g = expr   (ghost step performed when the goroutine is started)
+					idx := strings.Index(rest, "=")
+					if idx < 0 {
+						return fail("at go ghost g = expr")
+					}
+					src := strings.TrimSpace(rest[idx+1:])
+					e, err := parseSpec(src)
+					if err != nil {
+						return fail("%v", err)
+					}
+					if cur.AtAtomic == nil {
+						cur.AtAtomic = map[int][]GhostUpd{}
+					}
+					cur.AtAtomic[-1] = append(cur.AtAtomic[-1], GhostUpd{Ghost: fs[2], Expr: e, Src: src})
+					break
+				}
+				if len(fs) >= 5 && fs[0] == "atomic" && fs[2] == "ghost" {
+					// at atomic K ghost g = expr
+					k, err := strconv.Atoi(fs[1])
+					if err != nil {
+						return fail("at atomic K ghost g = expr")
+					}
+					idx := strings.Index(rest, "=")
+					if idx < 0 {
+						return fail("at atomic K ghost g = expr")
+					}
+					src := strings.TrimSpace(rest[idx+1:])
+					e, err := parseSpec(src)
+					if err != nil {
+						return fail("%v", err)
+					}
+					if cur.AtAtomic == nil {
+						cur.AtAtomic = map[int][]GhostUpd{}
+					}
+					cur.AtAtomic[k] = append(cur.AtAtomic[k], GhostUpd{Ghost: fs[3], Expr: e, Src: src})
+					break
+				}
 				if len(fs) < 4 || fs[0] != "call" || fs[2] != "assert" {
 					return fail("at call <callee> assert [label] expr")
 				}
